@@ -106,12 +106,16 @@ typedef struct { int kind, op, d1, d2, d3, sub; double cost; } grp_t;
 static void g_pair(const grp_t *g)
 {
     univ_t *u1 = get_univ(UK_U, g->d1), *u2 = get_univ(UK_U, g->d2);
-    int i1, i2, s;
+    int i1, i2, s, dmax = g->d1 > g->d2 ? g->d1 : g->d2;
     bc_t c;
     memset(&c, 0, sizeof(c));
     c.op = g->op; c.d1 = g->d1; c.d2 = g->d2;
     for (i1 = 0; i1 < u1->n && !G.stop; i1++)
     {
+        if (g->d3 > 1 && (i1 % g->d3) != g->sub)
+        {
+            continue; /* heavy groups are split into d3 interleaved slices of the first operand */
+        }
         for (i2 = 0; i2 < u2->n; i2++)
         {
             c.i1 = i1; c.i2 = i2;
@@ -148,17 +152,24 @@ static void g_pair(const grp_t *g)
                 }
                 break;
             case OP_DIV:
-                for (s = 0; s < ((g->d1 <= 9 && g->d2 <= 9) ? 4 : 1); s++)
+                /* full variant set for small operands; the variants that only differ in NULL/alias handling are not repeated for large ones */
+                for (s = 0; s < (dmax <= 9 ? 4 : 1); s++)
                 {
                     c.s1 = s & 1; c.s2 = s >> 1;
                     c.al = 0; c.v = 0; chk(&c);
                     if (s == 0)
                     {
-                        c.v = 1; chk(&c);
-                        c.v = 2; chk(&c);
-                        c.v = 4; chk(&c);
-                        c.v = 0; c.al = 1; chk(&c);
-                        c.al = 2; chk(&c);
+                        c.al = 1; chk(&c);
+                        if (dmax <= 17)
+                        {
+                            c.al = 0; c.v = 1; chk(&c);
+                            c.v = 0; c.al = 2; chk(&c);
+                        }
+                        if (dmax <= 9)
+                        {
+                            c.al = 0; c.v = 2; chk(&c);
+                            c.v = 4; chk(&c);
+                        }
                     }
                 }
                 break;
@@ -167,8 +178,14 @@ static void g_pair(const grp_t *g)
                 {
                     c.s1 = s; c.s2 = 0;
                     c.al = 0; c.v = s; chk(&c);
-                    c.v = 0; c.al = 1; chk(&c);
-                    c.al = 2; chk(&c);
+                    if (s == 0 || dmax <= 9)
+                    {
+                        c.v = 0; c.al = 1; chk(&c);
+                        if (dmax <= 17)
+                        {
+                            c.al = 2; chk(&c);
+                        }
+                    }
                 }
             }
         }
@@ -275,15 +292,22 @@ static void g_mulmod(const grp_t *g)
     c.op = OP_MULMOD; c.d1 = g->d1; c.d2 = g->d2; c.d3 = g->d3;
     for (i3 = 0; i3 < um->n && !G.stop; i3++)
     {
+        if (g->sub >= 0 && i3 != g->sub)
+        {
+            continue;
+        }
         for (i1 = 0; i1 < u1->n; i1++)
         {
             for (i2 = 0; i2 < u2->n; i2++)
             {
                 c.i1 = i1; c.i2 = i2; c.i3 = i3;
                 c.al = 0; c.v = 0; chk(&c);
-                c.v = 1; chk(&c);
-                c.v = 0; c.al = 1; chk(&c);
-                c.al = 2; chk(&c);
+                c.al = 1; chk(&c);
+                if (g->d1 < 16)
+                {
+                    c.al = 0; c.v = 1; chk(&c);
+                    c.v = 0; c.al = 2; chk(&c);
+                }
             }
         }
     }
@@ -314,7 +338,7 @@ static void g_exptmod(const grp_t *g)
     int gd[4], ng = 0, j, i1, x;
     bc_t c;
     memset(&c, 0, sizeof(c));
-    c.op = OP_EXPTMOD; c.d3 = g->d3; c.i3 = g->sub;
+    c.op = OP_EXPTMOD; c.d3 = g->d3; c.i3 = g->sub / 4;
     gd[ng++] = 1;
     if (g->d3 > 2) gd[ng++] = g->d3 - 1;
     if (g->d3 > 1) gd[ng++] = g->d3;
@@ -322,6 +346,10 @@ static void g_exptmod(const grp_t *g)
     for (j = 0; j < ng && !G.stop; j++)
     {
         univ_t *u1 = get_univ(UK_R, gd[j]);
+        if (j != g->sub % 4)
+        {
+            continue;
+        }
         c.d1 = gd[j];
         for (i1 = 0; i1 < u1->n; i1++)
         {
@@ -459,7 +487,7 @@ static void grp_case(void *ctx, mx_result_t *r)
     *r = fr;
 }
 
-#define MAXG 6000
+#define MAXG 20000
 static grp_t groups[MAXG];
 static long ng, order[MAXG];
 
@@ -505,7 +533,13 @@ static void build_groups(void)
                 double per = 0.3 + (dl[i] + dl[j]) * 0.02;
                 if (pops[k] == OP_MUL) per = 0.5 + dl[i] * dl[j] * 0.01;
                 if (pops[k] == OP_DIV || pops[k] == OP_MOD) per = 1 + (dl[i] > dl[j] ? (double) (dl[i] - dl[j] + 1) * 64 * dl[i] * 0.02 : 0.5);
-                add_grp(GK_PAIR, pops[k], dl[i], dl[j], 0, 0, n1 * n2 * per);
+                {
+                    int nsl = ((pops[k] == OP_DIV || pops[k] == OP_MOD) && dl[i] >= 16 && dl[i] > dl[j]) ? (dl[i] >= 48 ? 16 : 4) : 1, sl;
+                    for (sl = 0; sl < nsl; sl++)
+                    {
+                        add_grp(GK_PAIR, pops[k], dl[i], dl[j], nsl, sl, n1 * n2 * per / nsl);
+                    }
+                }
             }
         }
         add_grp(GK_UNARY, 0, dl[i], 0, 0, 0, get_univ(UK_U, dl[i])->n * 200.0 * (1 + dl[i] * dl[i] * 0.02));
@@ -519,10 +553,21 @@ static void build_groups(void)
         if (d > 2) mds[nm++] = d - 1;
         for (j = 0; j < nm; j++)
         {
-            add_grp(GK_MULMOD, 0, d, d, mds[j], 0, 2000.0 * d * d * (d - mds[j] + 2));
+            if (d >= 16)
+            {
+                int q;
+                for (q = 0; q < get_univ(UK_M, mds[j])->n; q++)
+                {
+                    add_grp(GK_MULMOD, 0, d, d, mds[j], q, 150.0 * d * d * (d - mds[j] + 2));
+                }
+            }
+            else
+            {
+                add_grp(GK_MULMOD, 0, d, d, mds[j], -1, 2000.0 * d * d * (d - mds[j] + 2));
+            }
             if (d > 1)
             {
-                add_grp(GK_MULMOD, 0, d, 1, mds[j], 0, 500.0 * d * (d + 2));
+                add_grp(GK_MULMOD, 0, d, 1, mds[j], -1, 500.0 * d * (d + 2));
             }
         }
         for (j = 0; j < ndm; j++)
@@ -539,9 +584,9 @@ static void build_groups(void)
         for (i = 0; i < np; i++)
         {
             univ_t *um = get_univ(UK_M, pl[i]);
-            for (j = 0; j < um->n; j++)
+            for (j = 0; j < um->n * 4; j++)
             {
-                add_grp(GK_EXPTMOD, 0, 0, 0, pl[i], j, 30.0 * pl[i] * pl[i] * pl[i] + 1000);
+                add_grp(GK_EXPTMOD, 0, 0, 0, pl[i], j, 8.0 * pl[i] * pl[i] * pl[i] + 1000);
             }
         }
     }
